@@ -42,22 +42,22 @@ type propConf struct {
 
 var props = map[string]propConf{
 	"C10": {Harness: "hstream", Level: "exploration", QuickRuns: 24000, ThorRuns: 1500000, QuickSecs: 300, ThorSecs: 900,
-		Rule:   "Each run is one simulated execution of the real util.MessageStream (reader, 25 parsers, writer, shutdown and drain goroutines) against a scripted connection. Scenario and schedule are derived from splitmix(VERIF_SEED, property, run index): 0-400 well-formed frames (sizes 8..65535 biased to 8, <64, around 2048 and multiples of it), a read-chunk plan (whole reads, 1-byte dribble, small/any random sizes, or cuts placed at frame start +0..+8, end-1 and around multiples of 2048), optional (0,nil) reads, arrival bursts in simulated time, a connection failure (EOF/reset/timeout) at a frame boundary, inside a length prefix, mid-body, after the first frame, after the last byte or before the first, optional local shutdown, consumer behaviour (eager, think time, stalls, stops) and slow parsers; the schedule strategy is uniform, sticky(p), PCT(d) or starve(class, windows) with a select-arm bias. A run counts as non-trivial when it has at least 2 frames and either a frame was split across reads or the reader was scheduled while a filled buffer was waiting for a parser; distinct = distinct digests of the complete decision+event trace.",
+		Rule:   "Each run is one simulated execution of the real util.MessageStream (reader, 25 parsers, writer, shutdown and drain goroutines) against a scripted connection. Scenario and schedule are derived from splitmix(VERIF_SEED, property, run index): 0-400 well-formed frames (sizes 8..65535 biased to 8, <64, around 2048 and multiples of it), a read-chunk plan (whole reads, 1-byte dribble, small/any random sizes, or cuts placed at frame start +0..+8, end-1 and around multiples of 2048), optional (0,nil) reads, arrival bursts in simulated time, a connection failure (EOF/reset/timeout) at a frame boundary, inside a length prefix, mid-body, after the first frame, after the last byte or before the first, optional local shutdown, consumer behaviour (eager, think time, stalls in scheduler steps, busy periods of 5 ms-60 s of simulated time, stops) and slow parsers; arrival gaps up to 45 s; the simulated connection honours read and write deadlines against the simulated clock; a third of the runs use frames of the all-kinds corpus (parseable on the current tree) instead of header-only kinds; the schedule strategy is uniform, sticky(p), PCT(d) or starve(class, windows) with a select-arm bias. A run counts as non-trivial when it has at least 2 frames and either a frame was split across reads or the reader was scheduled while a filled buffer was waiting for a parser; distinct = distinct digests of the complete decision+event trace.",
 		Assume: []string{"Go channel/goroutine semantics as implemented by the installed runtime", "SimConn follows *net.TCPConn semantics: Read returns n>0 or an error, never both; Write is atomic per call", "instrumenter preserves sequential semantics (the repository's unit tests pass on the instrumented copy; validated in the thorough tier)", "frames are pre-validated to parse to a non-nil message on the current tree so that codec defects are not imported into C10"}},
 	"C11": {Harness: "hstream", Level: "exploration", QuickRuns: 24000, ThorRuns: 1500000, QuickSecs: 300, ThorSecs: 900,
-		Rule:   "Each run is one simulated execution of the real util.MessageStream with 1-16 stub producer tasks submitting 0-100 messages each through the cap-1 Outbound channel (raw util.Message implementations with unique xids and PRNG bodies of 8..65535 bytes, top-level util.Buffer messages, occasional resubmission of the same object), the real writer goroutine and a scripted connection whose Write can stall in simulated time below the 10 s write deadline; a third of the runs also carry inbound traffic. Schedules as for C10. A run is non-trivial when at least 2 producers had overlapping submissions; distinct = distinct digests of the complete decision+event trace.",
+		Rule:   "Each run is one simulated execution of the real util.MessageStream with 1-16 stub producer tasks submitting 0-100 messages each through the cap-1 Outbound channel (raw util.Message implementations with unique xids and PRNG bodies of 8..65535 bytes, top-level util.Buffer messages, occasional resubmission of the same object), the real writer goroutine and a scripted connection whose Write can stall in simulated time below the 10 s write deadline; a third of the runs also carry inbound traffic; 6% of the runs let one write run into the 10 s deadline (with or without part of the data accepted: the library ends the process by design and only the prefix property of the wire is judged), 5% request a local shutdown while producers submit (safety half only), and one run in 800 is a marathon of 66 000-70 000 minimal messages with peer stalls around message 65 536. Write and Close of the connection are scheduling points. Schedules as for C10. A run is non-trivial when at least 2 producers had overlapping submissions; distinct = distinct digests of the complete decision+event trace.",
 		Assume: []string{"Go channel/goroutine semantics as implemented by the installed runtime", "SimConn.Write is atomic per call (net.Conn serialises concurrent writers)", "expected bytes of library messages come from an identically constructed twin object encoded once"}},
 	"C12": {Harness: "hstream", Level: "exploration", QuickRuns: 12000, ThorRuns: 800000, QuickSecs: 300, ThorSecs: 900,
 		Rule:   "Each run is one simulated execution of the real util.MessageStream fed with frames of the all-kinds corpus (an independent frame writer: every message kind openflow13.Parse decodes, every match-field, instruction, standard and Nicira action kind, multipart bodies, vendor and bundle messages, packet-in carrying Ethernet/VLAN/ARP/IPv4/IPv6+extension headers/ICMP/UDP/TCP/IGMP/DHCP/LLDP packets), a fifth of them additionally damaged in flight by one or two operators that leave them parseable; only frames the current tree parses to a non-nil message without error are used (C12 quantifies over parseable frames). The consumer holds every delivered message until the end of the run. The reuse of the input buffer is the injected fault, in two forms: natural recycling of the 50 pool buffers by later frames under slow/stalled consumers, and (half of the runs) an immediate overwrite of the whole input slice right after Parse returned. Oracles: at the instant Parse returns nothing reachable from the message points into the input buffer's backing array; at the end every held message deep-equals, and re-encodes like, a fresh control parse of a private copy of its bytes; the message's deep hash is unchanged since it was parsed. Schedules, chunkings and failures as for C10. Non-trivial as for C10; distinct = distinct digests of the complete decision+event trace.",
 		Assume: []string{"Go channel/goroutine semantics as implemented by the installed runtime", "SimConn follows *net.TCPConn semantics", "reflection walk reaches every slice/pointer/string/map reachable from a message, including unexported fields", "a decoder reached by no corpus frame is not covered (see unreached_decoders in the evidence)"}},
 	"C07": {Harness: "hstream", Level: "fault_enumeration", QuickRuns: 10000, ThorRuns: 1200000, QuickSecs: 300, ThorSecs: 900,
-		Rule:   "Fault model: frames damaged in flight by the peer or the network. Each run is one simulation in one of three classes. Stream leg (45%): 1-24 frames, three quarters of them corpus frames damaged by 1-3 operators (a marked length/count/type field set to 0,1,2,3,4,7,8,15,16,max,max-1,max/2,cur+-1,+-4,+8,*2,remaining length+-1,total(+1); truncation with the header length rewritten; byte overwrite; bit flip; aligned 16-bit overwrite; +-1/+-4 on a byte or word; duplicated or deleted 4/8/12-byte block; PRNG tail; zero/ones runs; another ofp_type or version) that keep the framing, travel through the real de-framer into the 25 real parser goroutines under a seeded schedule, followed by 1-5 valid frames that must still be delivered. Direct leg sampled (40%): 8-64 damaged byte strings (also shorter than a header, inconsistent length) handed to openflow13.Parse by a stub task. Direct leg enumerated (15%): for one corpus frame shape, truncation at every offset (with and without rewritten length) and every marked field x every replacement value. Oracles per decoder call: no panic escapes; at most 4096+32*len instrumented loop iterations+function entries; at most 1 MiB+64*len bytes requested from non-constant make(); and on the stream leg: all parser goroutines alive and every later valid frame delivered at quiescence. Non-trivial = the damaged bytes reached a decoder past the 8-byte header; distinct = distinct digests of the decision+event trace (the input bytes are folded into it).",
+		Rule:   "Fault model: frames damaged in flight by the peer or the network. Each run is one simulation in one of three classes. Stream leg (45%): 1-24 frames, three quarters of them corpus frames damaged by 1-3 operators (a marked length/count/type field set to 0,1,2,3,4,7,8,15,16,max,max-1,max/2,cur+-1,+-4,+8,*2,remaining length+-1,total(+1); truncation with the header length rewritten; byte overwrite; bit flip; aligned 16-bit overwrite; +-1/+-4 on a byte or word; duplicated or deleted 4/8/12-byte block; PRNG tail; zero/ones runs; another ofp_type or version) that keep the framing, travel through the real de-framer into the 25 real parser goroutines under a seeded schedule, followed by 1-5 valid frames that must still be delivered; 12% of the corpus frames are sent undamaged (unusual but well-formed: conntrack nested 3-60 deep, maximum sizes, rare kinds) and a fifth of the stream legs end with a desynchronising tail (header length field 0-9, 12 or arbitrary, followed by garbage) that the reader and the parsers must survive. Direct leg sampled (40%): 8-64 damaged byte strings (also shorter than a header, inconsistent length) handed to openflow13.Parse by a stub task. Direct leg enumerated (15%): for one corpus frame shape, truncation at every offset (with and without rewritten length) and every marked field x every replacement value. Oracles per decoder call: no panic escapes; at most 4096+32*len instrumented loop iterations+function entries; at most 1 MiB+64*len bytes requested from non-constant make(); and on the stream leg: all parser goroutines alive and every later valid frame delivered at quiescence. Non-trivial = the damaged bytes reached a decoder past the 8-byte header; distinct = distinct digests of the decision+event trace (the input bytes are folded into it).",
 		Assume: []string{"inputs are within 1-3 damage operators of a frame of the all-kinds corpus; byte strings far from every corpus frame are not explored", "CPU time inside non-instrumented callees (copy, bytes.Buffer, binary.Read) is linear in sizes bounded by the allocation budget", "instrumenter inserts a tick at every loop body, function entry and goto target of the library", "Parse returning (nil, nil) for message types it does not decode is recorded, not flagged"}},
 	"C08": {Harness: "hstream", Level: "fault_enumeration", QuickRuns: 16000, ThorRuns: 1200000, QuickSecs: 300, ThorSecs: 900,
 		Rule:   "Fault model: packets damaged or forged by network endpoints, reaching the controller inside packet-in frames. Same three run classes and damage operators as C07, applied to the packet region of hand-written packet-in frames carrying corpus packets (Ethernet, VLAN, ARP, IPv4 with options, IPv6 with hop-by-hop/routing/fragment headers and options, ICMP, UDP, TCP, IGMP v1-v3, DHCP with options, LLDP TLVs), with positions biased to the marked length-like fields (IHL, total length, next header, header-extension length, option length, hardware/protocol length, source/group counts, DHCP option lengths, TLV lengths). On the stream leg the automatically demultiplexed decoders run inside the parser goroutines and the stub controller application then runs the second-stage decoders (TCP, IGMP, DHCP, LLDP...) in the consumer task; direct legs address one decoder entry point per run with damaged bare inputs (sampled, or enumerated: every truncation offset and every marked field x every value). Oracles as C07 (no panic, tick budget, allocation budget, stream survives).",
 		Assume: []string{"inputs are within 1-3 damage operators of a packet of the corpus", "CPU time inside non-instrumented callees is linear in sizes bounded by the allocation budget", "the stub application's demux follows what controller applications do (IPv4 proto 6 -> TCP, proto 2 -> IGMP, UDP 67/68 -> DHCP, ethertype 0x88cc -> LLDP)"}},
 	"C14": {Harness: "hconc", Level: "exploration", QuickRuns: 60000, ThorRuns: 8000000, QuickSecs: 300, ThorSecs: 900, Fresh: 12,
-		Rule:    "Each run is one simulated execution of 2-64 tasks (real goroutines, one released at a time by the seeded scheduler). Every task executes a PRNG-generated program of up to 40 operations on values it alone owns: draw headers from the process-wide generator and from private generators, build messages of every kind through the library's constructors and adders, Len/MarshalBinary, openflow13.Parse of independently generated frames, packet-header decoders, registry lookups and mutation of their results. Scheduling points sit at every access to package-level variables, closure-captured variables, atomics and sync primitives inside the library (the only places where tasks working on independent values can influence each other). Strategies: PCT(depth 0-6), uniform, sticky, starvation windows; the op mix varies per run (id-heavy, codec-heavy, mixed). The first runs of every worker execute in a fresh process each so that first-use (lazy initialisation) behaviour is explored. A run is non-trivial when at least one task was pre-empted inside a library call (parked at a shared-state gate while another task ran); distinct = distinct digests of the complete decision+event trace.",
+		Rule:    "Each run is one simulated execution of 2-64 tasks (real goroutines, one released at a time by the seeded scheduler). Every task executes a PRNG-generated program of up to 40 operations on values it alone owns: draw headers from the process-wide generator and from private generators, build messages of every kind through the library's constructors and adders, Len/MarshalBinary, openflow13.Parse of independently generated frames, packet-header decoders, registry lookups and mutation of their results. Scheduling points sit at every access to package-level variables, closure-captured variables, atomics and sync primitives inside the library (the only places where tasks working on independent values can influence each other). Strategies: PCT(depth 0-6), uniform, sticky, starvation windows; the op mix varies per run (id-heavy, codec-heavy, mixed); kinds are weighted by the rarity of the shared-state sites they touch (profiled sequentially at start); a quarter of the runs are homogeneous swarms (every task runs the same operation: 3-4 tasks 5-30 times up to 17-64 tasks once or twice). The first 12 runs of every worker execute in a fresh process each with first-use scenarios (2-8 tasks whose first operations are of the same kind, nothing touching the library before the run) so that lazy initialisation and first-draw behaviour is explored. A run is non-trivial when at least one task was pre-empted inside a library call (parked at a shared-state gate while another task ran); distinct = distinct digests of the complete decision+event trace.",
 		Assume:  []string{"Go goroutine/atomic semantics as implemented by the installed runtime (sequentially consistent atomics)", "partial-order reduction: tasks operating on independent values interact only through instrumented shared locations (package-level variables, captured variables, atomics, sync objects); interleavings elsewhere cannot change an outcome", "race detection covers instrumented locations and method calls on objects rooted in package-level variables, not arbitrary heap objects", "runs never cross the 32-bit wrap of the id counter (excluded by the property)"},
 		Real:    []string{"common (header generator, messageXid, hello)", "openflow13 constructors, encoders, decoders, Parse, field registry", "protocol encoders/decoders incl. DHCP tables", "util", "Go runtime goroutines and atomics"},
 		Stub:    []string{"caller goroutines (task programs from the PRNG)", "choice of the next goroutine at every shared-state access (seeded strategy)", "initial value of the id counter (reset per run for replay)"},
